@@ -54,8 +54,8 @@ CLAIMED = {
   technique="symbolic execution of rustc MIR + z3 over a symbolic database (presence Booleans)",
   ref="DESIGN.md §5 C07"),
  'C09': dict(
-  text="Symbolic execution of the real MIR of `to_list` and `Numeric::div_rem`: the value (unbounded Real), the unit values of a list of 2..3 (thorough 4) entries (arbitrary positive Reals) and all unit exponent vectors are symbolic; z3 decides for every value at once that the parts sum to the value exactly, every part but the last is an integer, each remainder is smaller than the unit just used, all parts share the value's sign, and that non-conformable lists/values are refused (Generic vs Conformance). The automatic duration breakdown is the 6-entry instance with the constants read from the loaded database at run time.",
-  note="Stubs (nondeterministic summaries listed in evidence): Context::lookup -> harness unit table, Number::to_parts -> raw value only, canonicalize, conformance_err, Show::show. Assumes unit values > 0. OUTSIDE: parse_unitlist (token scanner), rendering of the parts, list lengths > 4 (6 for the fixed duration list).",
+  text="Symbolic execution of the real MIR of `to_list` and `Numeric::div_rem`: the value (unbounded Real), the unit values of a list of 2..4 (thorough 8) entries (arbitrary positive Reals) and all unit exponent vectors are symbolic; z3 decides for every value at once that the parts sum to the value exactly, every part but the last is an integer, each remainder is smaller than the unit just used, all parts share the value's sign, and that non-conformable lists/values are refused (Generic vs Conformance). The automatic duration breakdown is the 6-entry instance with the constants read from the loaded database at run time.",
+  note="Stubs (nondeterministic summaries listed in evidence): Context::lookup -> harness unit table, Number::to_parts -> raw value only, canonicalize, conformance_err, Show::show. Assumes unit values > 0. OUTSIDE: parse_unitlist (token scanner), rendering of the parts, list lengths > 8.",
   technique="symbolic execution of rustc MIR + z3 (mixed integer/real arithmetic)",
   ref="DESIGN.md §5 C09"),
  'C14': dict(
@@ -73,6 +73,8 @@ CLAIMED = {
 # what was added after the first registration (appended to the texts above)
 ADD_TEXT = {
  'C01': " Added: the real parse_expr + eval_expr on all operator sequences of 3 (thorough 4) symbolic operands against an independent evaluator written from the manual (precedence, associativity, unary minus), and literal shapes up to the 64-bit boundaries of the radix parsers.",
+ 'C03': " Added: Context::describe_unit (the text that names the missing factor in a conformance error) on an arbitrary dimensionality over m, s with a table of six named quantities: the description, read back, denotes exactly that dimensionality (with the reciprocal flag).",
+ 'C06': " Added: Number::pretty_unit with the real fast_decompose on an arbitrary dimensionality over kg, m, s and a table of derived units (regrouping preserves the dimensionality, whatever candidate the heuristic picks), and Number::unit_to_string (its text read back denotes the dimensionality).",
  'C04': " Added: parse_query on the `-> [digits N] [base B] [target]` suffix with symbolic digits (an accepted base lies in 2..=36), to_duration on float seconds (NaN, infinite, finite), the date offset matcher with hours of 1..10 digits, attempt() on out-of-range offsets.",
  'C05': " Added: counterexamples are replayed by calling BigRat::to_scientific / BigRat::to_string natively and re-reading the numeral with exact fractions (sign, radix point, recurring block, stated period, exponent); the fraction shown as exact companion of an approximate numeral is decided to be numer/denom of the value; the long division of to_digits_impl is decided by loop-head induction: the real prologue establishes the start state, and one real iteration from the specified state `n digits produced` (digits, remainders, text so far, remembered remainders) either returns a numeral that denotes the value (exact / recurring with the bracket at the right offset and the stated period equal to the block length / truncated within one unit of the last digit) or arrives at the loop head in the state `n+1 digits produced`.",
  'C07': " Added: Context::canonicalize followed by lookup preserves the value (symbolic database with long/short prefix pairs and names that split two ways); lookup(first); lookup(second) on one context equals lookup(second) on an identical fresh context for 9 name pairs with two prefix readings (history independence); static scan: no iteration over a std HashMap/HashSet in rink-core. Counterexamples are replayed on a Registry built natively from the model.",
@@ -83,6 +85,8 @@ ADD_TEXT = {
  'C19': " Second engine (mirsym on the MIR of the same file): one step of each operation from an arbitrary state (usage, peak, limit, sizes, parent failure) and two threads running one operation each with every sequentially consistent interleaving of their atomic operations enumerated as solver-checked decisions; native replay by reaching the state through the public API and by a two-thread stress run (one with a limit both blocks cannot fit under).",
 }
 ADD_NOTE = {
+ 'C03': " describe_unit is no longer stubbed in its own harness (it still is in the conversion harnesses); assumes a non-dimensionless argument, as its only caller guarantees.",
+ 'C06': " (fast_decompose and the unit-string assembly are now covered by their own harnesses; the note above predates them.) Still OUTSIDE: the real decomposition table of the database (a six-entry table is used), substance replies.",
  'C04': " tools/panic_surface.py lists the functions with panic sites that no harness enters (17 of 51 reachable from the query entry points at the time of writing: factorize, fast_decompose, expand_aliases, describe_unit, search_impl, parse_unitlist, parse_function, reply Display impls ...): outside the claim.",
  'C05': " The note above predates the loop-head induction: the digits ARE now decided, one iteration at a time, within the bounds base 10 / intdigits 1..2 (thorough 1..3) / at most 13 (thorough 14) digits produced before the iteration / budgets Default, 2 and 12 digits (thorough Default, 0, 3, 12; base 2 up to 10 digits; base 16 up to 5 digits with blocks of at most 4). BigInt::size_in_base is replaced by its arithmetic contract (true digit count or one more), BigRat::is_recurring by its contract inside the step (its real code is decided separately). OUTSIDE: integer parts of more than 3 digits, longer runs (e.g. the 1000-digit budget of `to digits`), bases other than 2/10/16.",
  'C07': " (canonicalize is now claimed under the stated well-formedness assumption: every unit has a definition, long and short spellings of a prefix carry the same value.)",
